@@ -62,6 +62,19 @@ def flatModelW (root : Str) (lists : List Str) (rows : List Cells) (settings : C
     Json.mkObj [("outcome", "ok"), ("instance", ntJ o.inst), ("binds", pj o.binds), ("body", pj o.body),
       ("closed", Json.bool ((o.binds ++ o.body).all (resolves o.inst)))]
 
+/-- the instance walk alone, **without** the flat×repeat guard (the walks are code-shaped there too: this is where the
+    open finding C02-flat-group-in-repeat lives); `none` when the rows are outside the row model or do not nest -/
+def walkUnguarded (root : Str) (lists : List Str) (rows : List Cells) (settings : Cells) : Option NT :=
+  let rows' := rows.map dropFlat
+  match classifyAll lists 2 rows' with
+  | .error _ => none
+  | .ok ks =>
+    let fks := flagRows rows ks
+    if strayFlat fks then none else
+    match fparse fks with
+    | .error _ => none
+    | .ok items => some (instanceOfF root (withMetaF rows' settings items))
+
 open Lean in
 def opsFlatW (op : String) (j : Json) : Option (Except String Json) :=
   match op with
@@ -70,6 +83,13 @@ def opsFlatW (op : String) (j : Json) : Option (Except String Json) :=
       let lists ← getStrList j "lists"
       let settings ← pairList (← j.getObjVal? "settings")
       pure (flatModelW (getStrD j "root" "data") lists rows settings)
+  | "flat.walk" => some do
+      let rows ← (← getArr j "rows").toList.mapM pairList
+      let lists ← getStrList j "lists"
+      let settings ← pairList (← j.getObjVal? "settings")
+      pure (match walkUnguarded (getStrD j "root" "data") lists rows settings with
+        | some t => Json.mkObj [("outcome", "ok"), ("instance", ntJ t)]
+        | none => Json.mkObj [("outcome", "unsupported")])
   | _ => none
 
 end Pyxv.FormFlat
